@@ -45,7 +45,15 @@ def gen_c07_case(rng):
         poll()
         ops.append(p.state_ack(advance=0))
     poll()
-    scenario = rng.choice(["trickle", "trickle", "burst", "ooo", "dup", "fin", "zerownd", "idle", "mixed"])
+    if rng.below(4) == 0:
+        # half-closed: our side shuts its write half down first and goes on receiving (FinWait1, and FinWait2
+        # once the peer acknowledged our FIN); every receive-side clause still applies
+        ops.append(rng.choice(["H", "H", "DW"]))
+        poll()
+        if rng.below(3):
+            ops.append(p.state_ack(advance=1))
+            poll()
+    scenario = rng.choice(["trickle", "trickle", "burst", "ooo", "dup", "fin", "zerownd", "zerownd", "idle", "mixed"])
     n = rng.range(4, 14)
     for i in range(n):
         sc = scenario if scenario != "mixed" else rng.choice(["trickle", "burst", "ooo", "dup", "zerownd", "idle"])
@@ -131,4 +139,4 @@ def component(pred_name, shared):
 
 COMPONENTS = [component("c07_immediate_ok", True), component("c07_delayed_ok", False),
               component("c07_fires_ok", False), component("c07_pre_monitor", False),
-              component("c07_idle_silent_partial", False)]
+              component("c07_idle_silent_partial", False), component("c07_window_update_ok", False)]
